@@ -353,6 +353,8 @@ T_LEAF = T("Leaf", "set_cc_gen", "set_size_gen", "set_bc_gen", "set_bi_gen", "se
            kind="the models' descriptor-flag setters/getters and block-size word equal the accessors regenerated from frame_gen.go (every argument; any previous value of the word)")
 T_STATES = T("States", "writer_next_gen", "reader_next_gen", "writer_init_gen", "reader_init_gen", "writer_closed", "reader_closed",
              kind="the models' state transitions equal the writerStates / readerStates slices regenerated from writer.go / reader.go; closed, in range")
+T_LEAF = T_LEAF + T("Leaf", "get_set_cc", "size_set_cc", "bc_set_cc", "bi_set_cc", "cc_set_size", "get_set_size", "bc_set_size", "bi_set_size", "cc_set_bc", "size_set_bc", "get_set_bc", "bi_set_bc", "cc_set_bi", "size_set_bi", "bc_set_bi", "get_set_bi",
+           kind="law of the regenerated Go accessors themselves: a one-bit setter sets exactly its flag and leaves the other flags unchanged (every word)")
 T_POOL = T("Pool", "reach_inv", "get_size", "inv_put", "inv_get", "inv_drop", "put_foreign", "put_slice",
            kind="the shared block-buffer pools keep their size classes after every Get/Put/drop history (what the Reader's cap(b.data) bound rests on)")
 CR_FAM = dict(family="cr", variant="asm", kview=kview_w, nontrivial=nontrivial_sess,
